@@ -53,6 +53,7 @@ class PrintUsingFormatter:
         i = idx
         sharps = 0
         real_sharps = 0
+        decimals = 0
 
         if fmt[i] in '+-':
             options['sign'] = ('begin', fmt[i])
@@ -69,6 +70,8 @@ class PrintUsingFormatter:
             elif fmt[i] == '#':
                 sharps += 1
                 real_sharps += 1
+                if 'decimal_point' in options:
+                    decimals += 1
                 i += 1
             elif fmt[i] == ',':
                 options['comma'] = True
@@ -84,6 +87,7 @@ class PrintUsingFormatter:
                 break
 
         options['real_sharps'] = real_sharps
+        options['decimals'] = decimals
         return i - idx, ('num', sharps*'#', options)
 
 
@@ -121,10 +125,11 @@ class PrintUsingFormatter:
         fmt_str = '{:'
         if options.get('comma', False):
             fmt_str += ','
-        if 'decimal_point' in options:
-            fmt_str += '.'
-            fmt_str += str(len(fmt) - options['decimal_point'])
-            fmt_str += 'f'
+        # round to the number of digit positions after the decimal
+        # point (none, if the field has no decimal point)
+        fmt_str += '.'
+        fmt_str += str(options.get('decimals', 0))
+        fmt_str += 'f'
         fmt_str += '}'
 
         if 'sign' in options:
